@@ -62,7 +62,7 @@ fn static_check() -> Result<(), Fail> {
     let run = |dir: &str, target: &str| {
         Command::new("cargo").args(["build", "--offline", "--quiet"]).current_dir(dir).env("CARGO_NET_OFFLINE", "true").env("CARGO_TARGET_DIR", target).output()
     };
-    let stat = run("/verif/harness_static", "/verif/harness/target/static").map_err(|e| Fail::new("infra", "cargo runs", e.to_string()))?;
+    let stat = run(&format!("{}/harness_static", verif_dir()), &format!("{}/harness/target/static", verif_dir())).map_err(|e| Fail::new("infra", "cargo runs", e.to_string()))?;
     if stat.status.success() {
         return Ok(());
     }
